@@ -255,6 +255,31 @@ def method_setup(cls, extra_fields=None):
 
 
 # ------------------------------------------------------------------------------------------------ generic clauses
+def _path_str(v):
+    if isinstance(v, VStr) and v.t is not None:
+        return t.TRUE, v.t
+    if isinstance(v, VDyn):
+        return t.app('(_ is VStr)', t.BOOL, v.t), t.app('sval', t.STR, v.t)
+    return None, None
+
+
+def derived_path_clause(pre, post):
+    """C18: an error raised while handling a member's ConstructError (a wrapper translating the failure) still names the
+    failing member: its path extends the path of the error it replaces"""
+    e = post.exc
+    c = getattr(e, 'context', None)
+    label = 'error-replacing-a-members-error-keeps-the-members-path'
+    if c is None:
+        return [(label, t.TRUE, ('C18',))]       # not raised while handling another error (kept so that the obligation exists on every tree)
+    isstr_c, pc = _path_str(c.path)
+    isstr_e, pe = _path_str(e.path)
+    if pc is None:
+        return [(label, t.TRUE, ('C18',))]
+    is_ce = post.eng.exc_sub_term(c.cls, 'ConstructError')
+    goal = t.FALSE if pe is None else t.and_(isstr_e, t.str_prefixof(pc, pe))
+    return [(label, t.implies(t.and_(is_ce, isstr_c), goal), ('C18',))]
+
+
 def path_clause(pre, post):
     e = post.exc
     pv = pre['path']
@@ -309,11 +334,45 @@ def stream_frame(kind):
     return f
 
 
+SCOPED = {'Struct', 'Sequence', 'FocusedSeq', 'Union', 'LazyStruct'}
+
+
+def scope_clause(pre, post):
+    """C07 for every composite that opens a scope, in parse, build and sizeof alike: the scope handed to the members is a
+    child of the scope the composite was given (checked on the scope as it stands before the first member runs; the loop
+    invariant 'local scope keeps its structural entries' carries it to every later member)"""
+    if pre.self.cls not in SCOPED or 'context' not in pre.args:
+        return []
+    snap = post.st.ghost.get('first_sub_ctx')
+    LE = post.st.ghost.get('LE')
+    H0, D0, a0 = pre.st.ghost['H'], pre.st.ghost['D'], pre.st.ghost['alloc']
+    c0 = pre.obj('context').addr
+    if LE is not None and 'context' in LE.env and isinstance(LE.env['context'], VRef) and 'H' in LE.ghost:
+        c1, H1, D1 = LE.get(LE.env['context']).addr, LE.ghost['H'], LE.ghost['D']
+    elif snap is not None:
+        c1, H1, D1 = snap
+    else:
+        return []
+    from .composites import child_of, dsel
+    co = child_of(H1, D1, c1, H0, D0, c0)
+    if 'obj' in pre.args:
+        # building: all supplied siblings are copied into the scope (context.update(obj)); the supplied mapping is keyed
+        # by member names, none of which is a structural entry (the hypothesis already made on member names)
+        ov = pre.eng.to_dyn(pre['obj'], pre.st) if not hasattr(pre['obj'], 't') else pre['obj'].t
+        oa = t.app('ref', t.INT, ov)
+        co = t.implies(t.implies(t.app('(_ is VRef)', t.BOOL, ov), t.and_(*[t.not_(dsel(D0, oa, k)) for k in pre.eng.models.interface.RESERVED])), co)
+    out = [('nested-scope-is-a-child-of-the-enclosing-scope', co, ('C07',)),
+           ('nested-scope-is-a-fresh-container', t.and_(t.ge(c1, a0), t.ne(c1, c0)), ('C07', 'C17'))]
+    if snap is not None:
+        out.append(('members-are-handed-the-nested-scope', t.eq(snap[0], c1), ('C07',)))
+    return out
+
+
 def generic_cases(kind, result_kind=None):
     sf = stream_frame(kind)
 
     def ret_ensures(pre, post):
-        out = sf(pre, post) + heap_frame(pre, post)
+        out = sf(pre, post) + heap_frame(pre, post) + scope_clause(pre, post)
         if kind in ('parse', 'build'):
             out.append(('no-ExplicitError-swallowed', t.not_(post.st.ghost.get('swallowed_explicit', t.FALSE)), ('C13',)))
         if result_kind is not None:
@@ -343,8 +402,8 @@ def generic_cases(kind, result_kind=None):
                 out.append(('error-path-extends-path-argument', t.implies(ce, pc), ('C18',)))
             return out + heap_frame(pre, post)
         out = [('only-%s-escapes' % base, ce, tag),
-               ('error-path-extends-path-argument', path_clause(pre, post), ('C18',))]
-        return out + heap_frame(pre, post)
+               ('error-path-extends-path-argument', path_clause(pre, post), ('C18',))] + derived_path_clause(pre, post)
+        return out + heap_frame(pre, post) + scope_clause(pre, post)
     mods = ['stream'] if kind in ('parse', 'build') else []
     return [Case('returns', 'return', lambda pre: t.TRUE, ensures=ret_ensures, rkind=rk_dyn, modifies=mods),
             Case('raises', 'raise', lambda pre: t.TRUE, ensures=raise_ensures, modifies=mods)]
@@ -418,7 +477,7 @@ def generic_contracts(src):
             qual = '%s:%s.%s' % (CORE, cls, m)
             abstract = is_abstract(src.find(qual))
             c = FnContract(qual, generic_cases(kind, RESULT_KIND.get(cls) if m in ('_parse', '_parsereport') else None), setup=method_setup(cls), stream_models=('bytesio', 'adv') if kind in ('parse', 'build') else ('bytesio',),
-                           tags=('C05', 'C06', 'C13', 'C17', 'C18'))
+                           tags=('C05', 'C06', 'C07', 'C13', 'C17', 'C18'))
             c.iface = dict(sub_seq=False, params_total=(kind != 'sizeof'), nat_params=(kind == 'sizeof'))
             if (cls, m) in ADAPTER_REQUIRES:
                 c.requires = ADAPTER_REQUIRES[(cls, m)]
